@@ -32,7 +32,7 @@ RULE = ('events open/next/drop(i)/dropview on <=2 iterators (all interleavings) 
         'configuration = (operator, nrows, buffersize, cache, reverse, failing source position, warm start, '
         'config default); node = event history; invariant evaluated in every node. A node is non-trivial when '
         'chunk/spill files exist on disk in it or when everything has been released after files had existed')
-ASSUMPTIONS = ['CPython reference counting + gc.collect() after every release event',
+ASSUMPTIONS = ['CPython reference counting + gc.collect() after every release event (the rc configurations: reference counting alone)',
                'chunk files are observed through tempdir= and a pinned tempfile.tempdir; file names are not compared']
 
 
@@ -181,6 +181,12 @@ class Harness(object):
         t = _tables(cfg, cfg.get('fail'))
         return OPS[name](t, self.others, _kw(cfg, self.D))
 
+    def _collect(self):
+        # 'rc' configurations: releasing the last reference must be enough (CPython reference counting alone, no
+        # cyclic collection) - a chunk-file wrapper that is part of a reference cycle outlives its view (wave 9)
+        if not self.cfg.get('rc'):
+            gc.collect()
+
     def _files(self):
         return len(env.listing(self.D)) + len(env.listing(self.D2))
 
@@ -306,17 +312,17 @@ class Harness(object):
         elif kind == 'clear':
             w['cleared'] = True
             w['view'].clearcache()
-            gc.collect()
+            self._collect()
             obs = ('cleared',)
         elif kind == 'drop':
             del w['its'][i]
-            gc.collect()
+            self._collect()
             obs = ('dropped',)
             if w['last'] == i:
                 w['last'] = None
         else:
             w['view'] = None
-            gc.collect()
+            self._collect()
             obs = ('viewdropped',)
         return obs
 
@@ -338,7 +344,7 @@ class Harness(object):
 
     def node_check(self, w, hist):
         if w['view'] is None and not w['its']:
-            gc.collect()
+            self._collect()
             left = env.listing(self.D) + env.listing(self.D2)
             if left:
                 return ([], ['%d file(s) left' % len(left)],
@@ -384,6 +390,12 @@ def _cfgs(tier):
             for cache in (True, False):
                 out.append({'op': 'sort', 'n': 2, 'b': b, 'cache': cache, 'fail': None, 'unpick': up, 'k': 2,
                             'warm': 'cold', 'bound': 1 if quick else None})
+    # release by reference counting alone (no gc.collect() at the release events)
+    for b in (1, 2, 3):
+        for cache in (True, False):
+            for warm in ('cold', 'afterfull'):
+                out.append({'op': 'sort', 'n': 2, 'b': b, 'cache': cache, 'fail': None, 'k': 2, 'warm': warm,
+                            'bound': 1 if quick else None, 'rc': True})
     for name in ('join', 'distinct', 'aggregate(multi)', 'mergesort', 'complement'):
         out.append({'op': name, 'n': 2, 'b': 1, 'cache': True, 'fail': None, 'unpick': 2, 'k': 2, 'warm': 'cold',
                     'bound': 0 if quick else 1, 'cfgdefault': False})
